@@ -363,10 +363,34 @@ func (q *Q) At(v ssa.Value, at *ssa.BasicBlock) Iv {
 	q.depth++
 	defer func() { delete(q.busy, k); q.depth-- }()
 
-	iv := q.structural(v, at)
-	// guards on the very same (versioned) expression
-	iv = iv.meet(q.guardBound(q.F.E(v), at))
-	return iv
+	iv := q.structural(v, at).meet(typeRange(v.Type()))
+	// guards on the very same (versioned) expression; what is already known
+	// is the base, so that x != c tightens a closed end at c
+	return q.guardBoundBase(q.F.E(v), at, iv)
+}
+
+// typeRange is the value range of an integer type of at most 32 bits (every
+// such value is representable in the interval domain).
+func typeRange(t types.Type) Iv {
+	b, ok := t.Underlying().(*types.Basic)
+	if !ok {
+		return Iv{}
+	}
+	switch b.Kind() {
+	case types.Uint8:
+		return Iv{0, math.MaxUint8, true, true}
+	case types.Uint16:
+		return Iv{0, math.MaxUint16, true, true}
+	case types.Uint32:
+		return Iv{0, math.MaxUint32, true, true}
+	case types.Int8:
+		return Iv{math.MinInt8, math.MaxInt8, true, true}
+	case types.Int16:
+		return Iv{math.MinInt16, math.MaxInt16, true, true}
+	case types.Int32:
+		return Iv{math.MinInt32, math.MaxInt32, true, true}
+	}
+	return Iv{}
 }
 
 // onEdge: interval of v for control flowing along pred->succ.
